@@ -178,6 +178,15 @@ def run_case(case, ctx):
         if late_total:
             oracle.total = total
             ctx.tag('total_assigned_after_construction')
+        if case['pot_seed'] % 2 == 0:
+            # another oracle object over the same attribute names is constructed before this one is used (two models
+            # alive in one process): it must not reach into this one
+            others = [(a,) for a in attrs] + ([tuple(attrs[:2])] if len(attrs) >= 2 else [])
+            if kind in ('norm_fg', 'exact_lbp'):
+                m.FactorGraph(dom, others, 3.0, convex=False, iters=2)
+            else:
+                m.RegionGraph(dom, others, 3.0, convex=(kind == 'norm_rg_convex'), iters=2)
+            ctx.tag('second_oracle_object_constructed_before_use')
     if len(regions) < 2 and int(np.prod(shape)) < 2:
         ctx.trivial = True
     maximal = [r for r in regions if not any(set(r) < set(o) for o in regions)]
